@@ -70,9 +70,9 @@ LEVEL_TEXT = ("Composition of solver verdicts: bit-precise (cvc5 QF_BVFP) decode
               "cannot be settled by tests; the solver covers all n,R,d in the stated ranges.")
 LEVEL_NOTE = ("B=0.501us (0.5 + float64 evaluation noise at <=1e6 s, which the property's quantifier sets aside). Trusted: E1-E3, "
               "S1-S5, composition argument of DESIGN 2.5 (wiring between engines).")
-TECHNIQUE = "SMT lemmas on the live float kernel (cvc5 bit-precise, z3 relaxed reals) + CrossHair dataflow of the real lookup/constructors + z3 glue lemmas"
+TECHNIQUE = "SMT lemmas on the live float kernel (cvc5 bit-precise, z3 relaxed reals) + CrossHair dataflow of the real lookup/constructors, whole [SyncTrack] and whole-chart harnesses on token lines + z3 glue lemmas + z3-generated boundary witnesses replayed through the real query"
 ENGINE = "FK+CH"
 EXPLANATION = "kernel lemmas K1-K5, dataflow harnesses, glue G1-G4; see obligation_table"
-BOUNDS = "R<=1e8, n<=1e9 (BPM<=1e6), d<=2e8 ticks per segment, time<1e6 s; K<=3/5 tempo events in CH (any K by induction)"
+BOUNDS = "R<=1e8, n<=1e9 (BPM<=1e6), d<=2e8 ticks per segment, time<1e6 s; K<=3/5 tempo events in CH (any K by induction); whole chart: 5 sections, 2 tempo events, 2 notes; 70 boundary witnesses"
 OUTSIDE = "R>1e8, n>1e9, times >=1e6 s; environment contracts E1-E3"
 ASSUMPTIONS = [S1, S3, S4, S5, E1, E2, E3]
